@@ -205,6 +205,30 @@ Proof.
   apply (freach_freachA (s_fs s)); auto. now apply SI_init.
 Qed.
 
+(** The same when every OTHER program may fault, be answered arbitrarily or be cut ([mreach i]). *)
+Lemma mreach_mreachA f0 i : forall s s', mreach i s s' -> SI content es f0 (s_fs s) -> Forall (pgood content es) (s_pool s) ->
+  avail_stable f0 -> mreachA content pc wit i s s'.
+Proof.
+  induction 1 as [s|s s1 s2 Hst Hr IH|s s1 s2 Hst Hr IH]; intros HS Hp Hv.
+  - constructor. apply stable_avail. exact (stable_SI f0 _ HS Hv).
+  - destruct (sys_step_invariant content es f0 Hfun s s1 (fstep_is_sstep _ _ Hst) HS Hp) as [HS1 Hp1].
+    apply (ma_own content pc wit i s s1 s2); [|exact Hst|exact (IH HS1 Hp1 Hv)].
+    apply stable_avail. exact (stable_SI f0 _ HS Hv).
+  - destruct (sys_step_invariant content es f0 Hfun s s1 (proj1 Hst) HS Hp) as [HS1 Hp1].
+    apply (ma_other content pc wit i s s1 s2); [|exact Hst|exact (IH HS1 Hp1 Hv)].
+    apply stable_avail. exact (stable_SI f0 _ HS Hv).
+Qed.
+
+Theorem stable_available_despite_faults s s' i o :
+  alias_free content es (s_fs s) -> Forall (pgood content es) (s_pool s) -> avail_stable (s_fs s) ->
+  nth_error (s_pool s) i = Some (solve_prog H pc) -> mreach i s s' -> nth_error (s_pool s') i = Some (Ret o) ->
+  o = Success /\ forall sg, In sg (w_segs pc) -> e_pad (ps_entry sg) = false -> holds_seg content (s_fs s') sg.
+Proof.
+  intros Ha Hp Hv Hn Hr Hn'.
+  apply (available_means_recovered_despite_faults H content es Hfun pc Hwf Hall Hcr Hhash Hpadz Hne Hone wit s s' i o Ha Hp Hn); [|exact Hn'].
+  apply (mreach_mreachA (s_fs s)); auto. now apply SI_init.
+Qed.
+
 (** Kill the first run anywhere; run again from what it left. *)
 Theorem rerun_recovers f0 pool0 s1 pool2 s2 i o :
   alias_free content es f0 -> Forall (pgood content es) pool0 -> avail_stable f0 ->
